@@ -227,6 +227,19 @@ def thread_local_rules(chk, P, prefix):
                 return False, "swap is keyed by %s, not self.id" % o_str(b.origin(c.args[0])), [], c.loc
             if not mir.o_is_param(b.origin(c.args[1]), idx=2):
                 return False, "swap is given %s, not the frame" % o_str(b.origin(c.args[1])), [], c.loc
+            # ... and nothing else touches the frame: a frame is a snapshot taken when it was opened, so entering or leaving it must not write to it
+            # (no props merged in from whatever is active now) - the swap is the only thing that may hold a mutable view of it
+            for c2 in b.calls(normal_only=True):
+                if c2.bb == c.bb:
+                    continue
+                for a in c2.args:
+                    if common.has_root(b.origin(a, through_calls=("deref_mut", "as_mut", "make_mut", "get_mut", "borrow_mut")), "param", 2):
+                        return False, ("ThreadLocalCtxt::%s also hands the frame to %s at %s: a frame carries the snapshot taken when it was opened; changing it on "
+                                       "%s (merging in what is active now, dropping entries) makes its properties leak across scopes and threads"
+                                       % (name, c2.callee.get("name"), c2.loc, name)), [], c2.loc
+            for bb, j, st in b.statements(normal_only=True):
+                if st["k"] == "assign" and st["place"].get("p") and st["place"]["l"] == 2:
+                    return False, "ThreadLocalCtxt::%s writes into the frame at %s:%s" % (name, b.file, st.get("line")), [], "%s:%s" % (b.file, st.get("line"))
             return True, "", [c.loc]
         return f
     chk.ob("%s.R6:ThreadLocalCtxt::enter" % prefix, "enter swaps the frame with this context's slot", tlc_method("enter"))
